@@ -214,8 +214,10 @@ OnOutTagged(m, ev, f) ==
           IN [m5 EXCEPT !.outs = Put(@, Wire(ev), Append(prev, [tag |-> tag, g |-> c.g, call |-> c.call, seq |-> ev.seq]))]
 
 \* ------------------------------------------------------------------ C16: heartbeats and stream requests
-HbWanted(m) == ~m.conf.hb_disable /\ m.conf.dialect \in {"common", "no66"}
-SrWanted(m) == m.conf.sr_enable /\ m.conf.dialect = "common"
+\* "common_rev", "common_sr_first": the messages of common declared in another order (a dialect is a set of messages)
+FullDialects == {"common", "common_rev", "common_sr_first"}
+HbWanted(m) == ~m.conf.hb_disable /\ m.conf.dialect \in FullDialects \cup {"no66"}
+SrWanted(m) == m.conf.sr_enable /\ m.conf.dialect \in FullDialects
 
 FieldVal(vals, i) == Val(SubSeq(vals[i][1], 1, IF Len(vals[i][1]) > 3 THEN 3 ELSE Len(vals[i][1])))
 
